@@ -31,13 +31,14 @@ template <class PT> void run_set(vf::Ctx& c, const char* tname, const regref::Se
       if (sig) { auto d = regref::pattern((unsigned)(i * 3 + ir)); q += sigma * V3(d[0], d[1], DIM == 3 ? d[2] : 0); }
       src.push_back(mkp<PT>(p)); tgt.push_back(mkp<PT>(q));
     }
-    for (int cm = 0; cm < 6; ++cm) {
+    for (int cm = 0; cm < 7; ++cm) {
       // correspondence modes: identity, reversed order, i -> 7i+3 mod n order, every other (subset), target stored permuted
       std::vector<Correspondence> cor; PointSet<PT> tgtUse = tgt;
       if (cm == 0) for (size_t i = 0; i < n; ++i) cor.emplace_back(i, i);
       else if (cm == 1) for (size_t i = n; i-- > 0;) cor.emplace_back(i, i);
       else if (cm == 2) { for (size_t i = 0; i < n; ++i) { size_t j = (7 * i + 3) % n; cor.emplace_back(j, j); } std::sort(cor.begin(), cor.end(), [](const Correspondence& a, const Correspondence& b) { return (a.sourcePointIndex * 2654435761u) % 1000003 < (b.sourcePointIndex * 2654435761u) % 1000003; }); cor.erase(std::unique(cor.begin(), cor.end(), [](const Correspondence& a, const Correspondence& b) { return a.sourcePointIndex == b.sourcePointIndex; }), cor.end()); if (cor.size() < 3) continue; }   // n a multiple of 7: the map 7i+3 mod n is not a bijection
       else if (cm == 3) { for (size_t i = 0; i < n; i += 2) cor.emplace_back(i, i); if (cor.size() < 3) continue; }
+      else if (cm == 6) { if (n < 8) continue; for (size_t i = 0; i + 3 < n; ++i) cor.emplace_back(i, i); for (size_t i = 0; i < 3; ++i) cor.emplace_back(2 * i + 1, 2 * i + 1); }   // as many records as points, three pairs listed twice, the last three points unmatched
       else if (cm == 5) {   // target stored permuted AND only part of the matches, in shuffled order (the shape of ICP matching output)
         bool bij = true; { std::vector<int> seen(n, 0); for (size_t i = 0; i < n; ++i) if (seen[(i * 5 + 1) % n]++) bij = false; } if (!bij) continue;
         for (size_t i = 0; i < n; ++i) tgtUse[(i * 5 + 1) % n] = tgt[i];
@@ -49,7 +50,7 @@ template <class PT> void run_set(vf::Ctx& c, const char* tname, const regref::Se
       // index-based overloads: points no correspondence refers to must not matter (poisoned with NaN); the distance and weight fields of the
       // correspondence records are not part of the problem (set to matcher-like values in two modes)
       PointSet<PT> srcIdx = src, tgtIdx = tgtUse;
-      if (cm == 3 || cm == 5) {
+      if (cm == 3 || cm == 5 || cm == 6) {
         std::vector<char> us(n, 0), ut(n, 0); for (auto& k : cor) { us[k.sourcePointIndex] = 1; ut[k.targetPointIndex] = 1; }
         for (size_t i = 0; i < n; ++i) { if (!us[i]) srcIdx[i].setConstant(std::numeric_limits<S>::quiet_NaN()); if (!ut[i]) tgtIdx[i].setConstant(std::numeric_limits<S>::quiet_NaN()); }
       }
@@ -151,7 +152,7 @@ std::string vf_describe(const std::string& tier) {
   o.str("every_size", "every point count from 3 to 500 (first n points of the scattered set), two rotations, all translations / perturbations / correspondence modes / overloads / scales, 8 point types");
   o.str("rotations", std::string("2D: {0,+-1e-6,+-0.1,+-pi/2,+-(pi-1e-6),pi} + 71 angles every 5 deg; 3D: 6 axes x {0,1e-6,0.1,pi/2,pi-1e-6,pi} + 8 axes x {1e-3,0.5,1,2,2.5,3,pi-1e-3,pi-1e-9}") + (tier == "thorough" ? "; plus 2D every 0.5 deg (720 angles) and 3D 24 Halton axes x 16 angles up to pi-1e-4" : "") + "; perturbed data on every rotation");
   o.str("translations", "0, (0.3,-1.2,2), (1e3,-1e3,10)");
-  o.str("correspondences", "identity, reversed, shuffled order, every other (subset), target stored permuted, subset of a permuted target in reversed order; in the subset modes the points no correspondence refers to are NaN; in two modes the records carry matcher-like distance and weight fields");
+  o.str("correspondences", "identity, reversed, shuffled order, every other (subset), target stored permuted, subset of a permuted target in reversed order, a list as long as the sets with three pairs listed twice and three points unmatched; in the subset modes the points no correspondence refers to are NaN; in two modes the records carry matcher-like distance and weight fields");
   o.str("overloads", "index-based and aligned, plain and preconditioned with scale {1e-3, 1/largest side, 1, 1e3}");
   o.str("perturbation", "deterministic Halton pattern, sigma {0, 1e-3, 0.1}");
   o.str("oracle", "proper rotation (64 eps); agreement with Horn's quaternion (3D) / closed-form (2D) solution in long double within max(64 eps n min(Ms Mt, Ms Et + Es Mt + Es Et)/(s_{d-1}+s_d), 64 eps) (M largest norms, E largest distances from the means); exact data: residuals and motion within 1e-9 (float 1e-4) relative; cases whose conditioning bound exceeds that are outside the quantifier (collinear / unresolvable in the scalar type) and counted trivial");
